@@ -44,6 +44,10 @@ pub enum Mutator {
   /// Replace handshake frame `idx` by a crafted security command whose metadata-encoded body
   /// carries one well-known property with a value of `value_len` bytes (CURVE token parsers).
   CraftedToken { idx: u8, cmd: u8, prop: u8, value_len: u8 },
+  /// A correctly framed COMMAND whose body is a known command name followed by only `extra`
+  /// argument bytes (0..3): PING without its TTL, READY without properties, ERROR without a
+  /// reason length... inserted before frame `idx`, or appended (data phase) when `append`.
+  ShortCommand { idx: u8, name: u8, extra: u8, append: bool },
 }
 
 fn mutator_strategy() -> impl Strategy<Value = Mutator> + Clone {
@@ -66,6 +70,7 @@ fn mutator_strategy() -> impl Strategy<Value = Mutator> + Clone {
     1 => (0u8..4).prop_map(|idx| Mutator::BadUtf8Ready { idx }),
     1 => (0u8..4).prop_map(|idx| Mutator::BadValueLenReady { idx }),
     3 => (0u8..4, 0u8..3, 0u8..4, prop_oneof![0u8..20, 0u8..120]).prop_map(|(idx, cmd, prop, value_len)| Mutator::CraftedToken { idx, cmd, prop, value_len }),
+    3 => (0u8..12, 0u8..9, 0u8..4, any::<bool>()).prop_map(|(idx, name, extra, append)| Mutator::ShortCommand { idx, name, extra, append }),
   ];
   prop_oneof![11 => byte_level, 11 => frame_level]
 }
@@ -191,6 +196,16 @@ pub fn to_ops(muts: &[Mutator], stream: &[u8], frames_from: usize) -> Vec<MitmOp
         match fr(*idx) {
           Some((start, hdr, n)) => ops.push(MitmOp::Replace { pos: start, del: hdr + n, ins }),
           None => ops.push(MitmOp::Replace { pos: total, del: 0, ins }),
+        }
+      }
+      Mutator::ShortCommand { idx, name, extra, append } => {
+        let n = ["PING", "PONG", "READY", "ERROR", "SUBSCRIBE", "CANCEL", "HELLO", "WELCOME", "INITIATE"][*name as usize % 9];
+        let body = wire::command_body(n, &fill(*extra as usize, *extra as u64 + 3));
+        let mut ins = Vec::new();
+        wire::encode_frame(&RefFrame::cmd(body), &mut ins);
+        match fr(*idx) {
+          Some((start, _, _)) if !*append => ops.push(MitmOp::Replace { pos: start, del: 0, ins }),
+          _ => ops.push(MitmOp::Replace { pos: total, del: 0, ins }),
         }
       }
       Mutator::RandomTail { len, seed } => ops.push(MitmOp::Replace { pos: total, del: 0, ins: fill(*len as usize, *seed as u64 ^ 0xABCD) }),
